@@ -251,11 +251,18 @@ void dump_input(std::string &out, const TSInputView &in, bool deep) {
                 case TSTypeKind::TSB: {
                     out += ",\"ch\":";
                     guarded(out, [&](std::string &o) { auto b = in.as_bundle(); o += '['; for (std::size_t i = 0; i < b.size(); ++i) { if (i) o += ','; dump_input(o, b[i], deep); } o += ']'; });
+                    // the filtered iteration accessors, read independently of the per-child flags above
+                    out += ",\"it\":";
+                    guarded(out, [&](std::string &o) { auto b = in.as_bundle(); std::size_t k = 0; o += "{\"mi\":["; for (const auto &[n, c] : b.modified_items()) { if (k++) o += ','; jstr(o, std::string{n}); } o += "],\"vi\":["; k = 0; for (const auto &[n, c] : b.valid_items()) { if (k++) o += ','; jstr(o, std::string{n}); }
+                        std::size_t mv = 0, vv = 0; for (auto c : b.modified_values()) { (void)c; ++mv; } for (auto c : b.valid_values()) { (void)c; ++vv; } o += "],\"mv\":" + std::to_string(mv) + ",\"vv\":" + std::to_string(vv) + ",\"names\":["; k = 0; for (auto n : b.keys()) { if (k++) o += ','; jstr(o, std::string{n}); } o += "]}"; });
                     break;
                 }
                 case TSTypeKind::TSL: {
                     out += ",\"ch\":";
                     guarded(out, [&](std::string &o) { auto b = in.as_list(); o += '['; for (std::size_t i = 0; i < b.size(); ++i) { if (i) o += ','; dump_input(o, b[i], deep); } o += ']'; });
+                    out += ",\"it\":";
+                    guarded(out, [&](std::string &o) { auto b = in.as_list(); std::size_t k = 0; o += "{\"mi\":["; for (const auto &[n, c] : b.modified_items()) { if (k++) o += ','; o += std::to_string(n); } o += "],\"vi\":["; k = 0; for (const auto &[n, c] : b.valid_items()) { if (k++) o += ','; o += std::to_string(n); }
+                        std::size_t mv = 0, vv = 0; for (auto c : b.modified_values()) { (void)c; ++mv; } for (auto c : b.valid_values()) { (void)c; ++vv; } o += "],\"mv\":" + std::to_string(mv) + ",\"vv\":" + std::to_string(vv) + "}"; });
                     break;
                 }
                 case TSTypeKind::TSW: {
@@ -300,11 +307,17 @@ void dump_output(std::string &out, const TSOutputView &o_, bool deep) {
             case TSTypeKind::TSB: {
                 out += ",\"ch\":";
                 guarded(out, [&](std::string &o) { auto b = o_.as_bundle(); o += '['; for (std::size_t i = 0; i < b.size(); ++i) { if (i) o += ','; dump_output(o, b[i], deep); } o += ']'; });
+                out += ",\"it\":";
+                guarded(out, [&](std::string &o) { auto b = o_.as_bundle(); std::size_t k = 0; o += "{\"mi\":["; for (const auto &[n, c] : b.modified_items()) { if (k++) o += ','; jstr(o, std::string{n}); } o += "],\"vi\":["; k = 0; for (const auto &[n, c] : b.valid_items()) { if (k++) o += ','; jstr(o, std::string{n}); }
+                    std::size_t mv = 0, vv = 0; for (auto c : b.modified_values()) { (void)c; ++mv; } for (auto c : b.valid_values()) { (void)c; ++vv; } o += "],\"mv\":" + std::to_string(mv) + ",\"vv\":" + std::to_string(vv) + ",\"names\":["; k = 0; for (auto n : b.keys()) { if (k++) o += ','; jstr(o, std::string{n}); } o += "]}"; });
                 break;
             }
             case TSTypeKind::TSL: {
                 out += ",\"ch\":";
                 guarded(out, [&](std::string &o) { auto b = o_.as_list(); o += '['; for (std::size_t i = 0; i < b.size(); ++i) { if (i) o += ','; dump_output(o, b[i], deep); } o += ']'; });
+                out += ",\"it\":";
+                guarded(out, [&](std::string &o) { auto b = o_.as_list(); std::size_t k = 0; o += "{\"mi\":["; for (const auto &[n, c] : b.modified_items()) { if (k++) o += ','; o += std::to_string(n); } o += "],\"vi\":["; k = 0; for (const auto &[n, c] : b.valid_items()) { if (k++) o += ','; o += std::to_string(n); }
+                    std::size_t mv = 0, vv = 0; for (auto c : b.modified_values()) { (void)c; ++mv; } for (auto c : b.valid_values()) { (void)c; ++vv; } o += "],\"mv\":" + std::to_string(mv) + ",\"vv\":" + std::to_string(vv) + "}"; });
                 break;
             }
             case TSTypeKind::TSW: {
